@@ -80,6 +80,46 @@ def exhaustive_cases(tier):
     return out
 
 
+def parallel_done_cases(rng, n):
+    """a parallel whose regions each reach a final state (done.state.<region>, then done.state.<parallel>), regions with or
+    without a history child / an <initial> element, optionally left half-way and resumed through a history"""
+    out = []
+    for _ in range(n):
+        nr = rng.randint(2, 3)
+        regs, evs_to_final = [], []
+        hist_region = None
+        for i in range(nr):
+            hist = rng.random() < 0.5
+            deep = rng.random() < 0.3
+            mid = rng.random() < 0.5
+            kids = ""
+            if hist:
+                kids += " (%s r%dh (t - - e (r%da)))" % ("hdeep" if deep else "history", i, i)
+                if hist_region is None: hist_region = i
+            first = "(state r%da (t g%d - e (%s)))" % (i, i, "r%db" % i if mid else "r%df" % i)
+            second = " (state r%db (t h%d - e (r%df)))" % (i, i, i) if mid else ""
+            # (no target-less done.state.r<i> listeners: nested target-less transitions are the recorded finding nested-targetless)
+            regs.append("(state r%d (init r%da)%s %s%s (final r%df))" % (i, i, kids, first, second, i))
+            evs_to_final.append(["g%d" % i] + (["h%d" % i] if mid else []))
+        resume = "(r%dh)" % hist_region if hist_region is not None else "(work)"
+        sx = ("(scxml root (init work) (parallel work (onentry (log 1 IN)) (onexit (log 2 OUT)) %s (t pause - e (paused)) (t done.state.work - e (pass) (log 3 DONE))) "
+              "(state paused (t resume - e %s)) (final pass))" % (" ".join(regs), resume))
+        d = charts.from_sexpr(sx)
+        # event history: interleave the regions' steps, maybe with a pause/resume in between
+        steps = [e for ev in evs_to_final for e in ev]
+        order = []
+        pend = [list(ev) for ev in evs_to_final]
+        while any(pend):
+            k = rng.choice([i for i, p in enumerate(pend) if p])
+            order.append(pend[k].pop(0))
+        if rng.random() < 0.5:
+            k = rng.randrange(len(order) + 1)
+            order[k:k] = ["pause", "resume"]
+            if rng.random() < 0.5: order += steps           # after a resume the other regions start over
+        out.append((d, order))
+    return out
+
+
 def hypotheses(ctx, suite, docs):
     """the decidable hypothesis of the structural theorems - the document is well formed (WFDoc) - evaluated on the generated
     charts by the compiled Lean definitions, together with Coherent and IntervalOK (theorems for well-formed documents,
@@ -98,19 +138,28 @@ def hypotheses(ctx, suite, docs):
     return st
 
 
-def history_revisit_selfdriven(rng, n):
-    """the same family for back-ends that are run without outside events (Promela): a boot state sends the whole
-    event history to the session itself before the chart proper is entered"""
+def selfdriven(cases):
+    """for back-ends that are run without outside events (Promela): a boot state sends the whole event history to the session
+    itself before the chart proper is entered; log labels become L<uvid> (what the trace reader of C06 recognises)"""
+    import re
     out = []
-    for d, evs in history_revisit_cases(rng, n):
+    for d, evs in cases:
         sx = charts.sexpr(d)
-        sx = sx.replace("E", "L2").replace("OUT", "L1")
+        sx = re.sub(r"\(log (\d+) [^)\s]+\)", lambda m: "(log %s L%s)" % (m.group(1), m.group(1)), sx)
         sends = " ".join("(send %d %s -)" % (100 + i, e) for i, e in enumerate(evs))
-        first = "p" if "(init p)" in sx else "out"
-        sx = sx.replace("(scxml root (init p) ", "(scxml root ", 1)
+        m = re.match(r"\(scxml root \(init ([^)]*)\) ", sx)
+        if m:
+            first = m.group(1)
+            sx = sx.replace(m.group(0), "(scxml root ", 1)
+        else:
+            first = re.search(r"\((?:state|parallel|final) (\S+)", sx).group(1)
         sx = sx.replace("(scxml root ", "(scxml root (init boot) (state boot (onentry %s) (t - - e (%s))) " % (sends, first), 1)
         out.append(charts.from_sexpr(sx))
     return out
+
+
+def history_revisit_selfdriven(rng, n):
+    return selfdriven(history_revisit_cases(rng, n))
 
 
 def history_revisit_cases(rng, n):
